@@ -7,7 +7,7 @@ import time
 from . import lib
 
 # The model of the code as it is after the fix: commits
-FIXED = dict(ViewOwnsSlot=True, TxCas=True, ClearFirst=True)
+FIXED = dict(ViewOwnsSlot=True, TxCas=True, ClearFirst=True, Recheck=True, SentOnly=True)
 
 KINDS = {
     "C01": {"Misroute", "ViewLen", "ViewChanged", "TrimWrong", "GenuineReject", "Stuck",
@@ -28,6 +28,7 @@ def model_constants(sc):
         AllowDropCreated=sc.get("allow_drop_created", False), AllowLose=sc.get("allow_lose", False),
         DupBudget=sc.get("dup_budget", 0), SendFailBudget=sc.get("send_fail_budget", 0),
         EarlyResponse=sc.get("early_response", False), InitPduIdx=sc.get("init_pdu_idx", 0),
+        TimerApps=set(sc.get("timer_apps", range(sc["apps"]))),
     )
     c.update(FIXED)
     c.update(sc.get("model_override", {}))
@@ -37,7 +38,7 @@ def model_constants(sc):
 def harness_cfg(sc):
     keys = ["n", "apps", "max_req", "max_pdus", "retry_set", "allow_timer", "allow_abandon",
             "allow_drop_created", "allow_lose", "dup_budget", "send_fail_budget", "early_response",
-            "tx_prompt", "no_release_inside", "burn_idx"]
+            "tx_prompt", "no_release_inside", "burn_idx", "timer_apps"]
     return {k: sc[k] for k in keys if k in sc}
 
 
@@ -67,6 +68,7 @@ class Engine:
         self.exhaustive = True
         self.sched_count = 0
         self.distinct = set()
+        self.band = "A"
 
     # -- model checking -------------------------------------------------------------------
     def mc(self, name, sc, invariants=(), properties=(), constraints=(), workers=8, timeout=900,
@@ -75,7 +77,9 @@ class Engine:
         consts["MaxChoice"] = max_choice(sc)
         consts["EmitSchedules"] = False
         cfg = lib.cfg_text(spec="MCSpec", view="MCView", constants=consts, invariants=invariants,
-                           properties=properties, constraints=constraints)
+                           properties=properties,
+                           constraints=[c for c in constraints if not c.startswith("ACTION:")],
+                           action_constraints=[c[7:] for c in constraints if c.startswith("ACTION:")])
         d = os.path.join(self.wd, f"mc-{name}")
         os.makedirs(d, exist_ok=True)
         r = lib.tlc(d, "PduLoopMC", cfg, workers=workers, timeout=timeout, coverage=False)
@@ -96,6 +100,31 @@ class Engine:
         if r.violated:
             self.exhaustive = False
             self.handle_counterexample(name, sc, r)
+        return r
+
+    def liveness(self, name, sc, props, timeout=600):
+        consts = model_constants(sc)
+        cfg = lib.cfg_text(spec="FairSpec", constants=consts, properties=props)
+        d = os.path.join(self.wd, f"live-{name}")
+        os.makedirs(d, exist_ok=True)
+        r = lib.tlc(d, "PduLoop", cfg, workers=4, timeout=timeout)
+        self.states += r.distinct
+        self.transitions += r.generated
+        self.mc_runs.append(dict(name="live-" + name, properties=props, distinct=r.distinct,
+                                 generated=r.generated, wall_s=round(r.wall, 1),
+                                 complete=(not r.violated and r.error is None), violated=r.violated,
+                                 note="temporal property under weak fairness of every process and the clock, "
+                                      "no state constraint"))
+        lib.log(f"liveness {name}: {r.distinct} distinct, violated={r.violated}, error={r.error} ({r.wall:.0f}s)")
+        if r.error == "timeout":
+            self.exhaustive = False
+            return r
+        if r.error:
+            raise lib.ToolError(f"TLC error in liveness {name}: {r.error}")
+        if r.violated:
+            # a liveness counterexample is a lasso; the implementation side of it is the "Stuck"
+            # verdict of the monitor on seeded runs - report as divergence for the evidence
+            self.verdict.divergences.append(dict(kind="model-liveness-counterexample", mc=name, props=props))
         return r
 
     def handle_counterexample(self, name, sc, r):
@@ -121,7 +150,8 @@ class Engine:
         consts["IdxMod"] = 256
         consts["MaxChoice"] = max_choice(sc)
         consts["EmitSchedules"] = True
-        cfg = lib.cfg_text(spec="MCSpec", constants=consts, invariants=["Emit"])
+        cfg = lib.cfg_text(spec="MCSpec", constants=consts, invariants=["Emit"],
+                           constraints=["NoReleaseInside"] if sc.get("no_release_inside") else [])
         d = os.path.join(self.wd, f"sim-{name}")
         os.makedirs(d, exist_ok=True)
         r = lib.tlc(d, "PduLoopMC", cfg, workers=1, timeout=600,
@@ -158,7 +188,8 @@ class Engine:
         consts = model_constants(sc)
         consts.update(IdxMod=256, MaxReq=100000, MaxPdus=7, RetrySet=set(range(8)), AllowTimer=True,
                       AllowAbandon=True, AllowDropCreated=True, AllowLose=True, DupBudget=10 ** 6,
-                      SendFailBudget=10 ** 6, EarlyResponse=True, InitPduIdx=0)
+                      SendFailBudget=10 ** 6, EarlyResponse=True, InitPduIdx=0,
+                      TimerApps=set(range(sc["apps"])))
         cfg = lib.cfg_text(spec="TraceSpec", constants=consts, constraints=["Track"],
                            postcondition="TraceAccepted")
         d = os.path.join(self.wd, f"tv-{tag}")
@@ -343,40 +374,94 @@ BASE = dict(n=1, apps=2, max_req=1, max_pdus=1, retry_set=[0])
 def scenarios(pid, tier):
     q = tier == "quick"
     if pid == "C01":
+        inv = ["NoMisroute", "ViewStable", "OkIsOwn", "NoLostWake", "NoGenuineReject", "NoWriterWhileViewed"]
         return dict(
-            mc=[("n1a2", dict(BASE), ["TypeOK", "NoMisroute", "ViewStable", "OkIsOwn", "NoLostWake",
-                                      "NoGenuineReject", "NoWriterWhileViewed"], [], ["IndexConstraint"]),
-                ("n2a2", dict(BASE, n=2, max_req=2 if not q else 1, max_pdus=2),
-                 ["NoMisroute", "ViewStable", "OkIsOwn", "NoLostWake", "NoGenuineReject"], [],
-                 ["IndexConstraint"]),
-                ("n1a2dup", dict(BASE, max_req=2, dup_budget=1),
-                 ["NoMisroute", "ViewStable", "OkIsOwn", "NoLostWake"], [], ["IndexConstraint"])],
+            mc=[("n1a2", dict(BASE), ["TypeOK"] + inv, [], ["IndexConstraint"]),
+                ("n2a2", dict(BASE, n=2, max_req=1 if q else 2, max_pdus=1 if q else 2), inv, [], ["IndexConstraint"]),
+                ("n1a2dup", dict(BASE, dup_budget=1), inv, [], ["IndexConstraint"])]
+               + ([] if q else [("n2a3", dict(BASE, n=2, apps=3), inv, [], ["IndexConstraint"])]),
+            live=[("n1a2", dict(BASE), ["Resolves"])],
             sim=[("n2a2", dict(BASE, n=2, max_req=2, max_pdus=2), 150 if q else 3000)],
             rnd=[("n2a2", dict(BASE, n=2, max_req=3, max_pdus=2, dup_budget=1), 150 if q else 5000),
-                 ("n4a3wrap", dict(BASE, n=4, apps=3, max_req=4, max_pdus=3, burn_idx=250), 60 if q else 3000)],
+                 ("n4a3wrap", dict(BASE, n=4, apps=3, max_req=4, max_pdus=3, burn_idx=250), 60 if q else 3000),
+                 ("n1a3", dict(BASE, apps=3, max_req=2), 60 if q else 2000)],
         )
     if pid == "C02":
+        inv = ["MutualExclusion", "NoWriterWhileViewed", "FreeMeansUnowned", "NoOrphan"]
+        prop = ["ClaimOnlyWhenFree", "LifecycleOrder"]
         return dict(
             mc=[("n1a2", dict(BASE, send_fail_budget=1, dup_budget=1, allow_drop_created=True),
-                 ["TypeOK", "MutualExclusion", "NoWriterWhileViewed", "FreeMeansUnowned"],
-                 ["ClaimOnlyWhenFree", "LifecycleOrder"], []),
-                ("n2a2", dict(BASE, n=2, max_req=2 if not q else 1, send_fail_budget=1),
-                 ["MutualExclusion", "NoWriterWhileViewed", "FreeMeansUnowned"],
-                 ["ClaimOnlyWhenFree", "LifecycleOrder"], [])],
+                 ["TypeOK"] + inv, prop, []),
+                ("n2a2", dict(BASE, n=2, max_req=1 if q else 2, send_fail_budget=1), inv, prop, [])]
+               + ([] if q else [("n2a3", dict(BASE, n=2, apps=3), inv, prop, []),
+                                ("n1a3", dict(BASE, apps=3, dup_budget=1), inv, prop, [])]),
             sim=[("n2a2", dict(BASE, n=2, max_req=2, send_fail_budget=1, dup_budget=1,
                                 allow_drop_created=True), 150 if q else 3000)],
             rnd=[("n2a2", dict(BASE, n=2, max_req=3, max_pdus=2, send_fail_budget=2, dup_budget=2,
                                 allow_drop_created=True), 150 if q else 5000),
                  ("n1a3", dict(BASE, apps=3, max_req=2, send_fail_budget=1, dup_budget=1), 80 if q else 3000)],
         )
+    if pid == "C03":
+        inv = ["NoLeak", "FreeMeansUnowned", "NoOrphan"]
+        one = dict(n=1, apps=1, max_req=2, max_pdus=1, retry_set=[0], early_response=True)
+        allf = dict(allow_timer=True, allow_abandon=True, allow_lose=True, dup_budget=1, send_fail_budget=1,
+                    allow_drop_created=True, early_response=True, no_release_inside=True)
+        return dict(
+            mc=[("timer", dict(one, retry_set=[0, 1], allow_timer=True, max_req=1 if q else 2), inv, [], ["NoReleaseInside"]),
+                ("abandon", dict(one, allow_abandon=True), inv, [], ["NoReleaseInside"]),
+                ("net", dict(one, allow_lose=True, dup_budget=1, allow_timer=True), inv, [], ["NoReleaseInside"]),
+                ("send", dict(one, send_fail_budget=2, allow_drop_created=True), inv, [], []),
+                ("n2a2abandon", dict(BASE, n=2, allow_abandon=True, allow_drop_created=True, early_response=True,
+                                     timer_apps=[0]), inv, [], ["NoReleaseInside"])],
+            sim=[("n2a2", dict(BASE, n=2, max_req=2, retry_set=[0, 1], **allf), 150 if q else 3000)],
+            rnd=[("n2a2", dict(BASE, n=2, max_req=3, max_pdus=2, retry_set=[0, 1, 2], **allf), 150 if q else 5000),
+                 ("n4a3", dict(BASE, n=4, apps=3, max_req=3, retry_set=[0, 1], **allf), 60 if q else 3000),
+                 ("n1a2", dict(BASE, max_req=3, retry_set=[0, 2], **allf), 80 if q else 3000)],
+        )
+    if pid == "C06":
+        inv = ["MutualExclusion", "NoWriterWhileViewed", "NoMisroute", "OkIsOwn", "NoLeak", "FreeMeansUnowned",
+               "NoOrphan", "TxCountBound"]
+        one = dict(n=1, apps=1, max_req=1, max_pdus=1, retry_set=[0, 1, 2], allow_timer=True,
+                   early_response=True)
+        A = dict(no_release_inside=True)
+        allf = dict(allow_timer=True, allow_abandon=True, allow_lose=True, early_response=True)
+        return dict(
+            mc=[("a1timer", dict(one, allow_lose=True, max_req=1 if q else 2, **A), inv, [], ["NoReleaseInside"]),
+                ("a1count", dict(one, allow_lose=True, tx_prompt=True, **A), inv + ["TxCountExact"], [],
+                 ["NoReleaseInside", "ACTION:TxPromptAct"]),
+                ("a2timer", dict(BASE, retry_set=[0, 1], allow_timer=True, allow_lose=True, early_response=True,
+                                 timer_apps=[0], **A), inv, [], ["NoReleaseInside"]),
+                ("a2abandon", dict(BASE, allow_abandon=True, early_response=True, timer_apps=[0], **A), inv, [],
+                 ["NoReleaseInside"])]
+               + ([] if q else [("n2a2timer", dict(BASE, n=2, retry_set=[0, 1], allow_timer=True, allow_lose=True,
+                                                    early_response=True, timer_apps=[0], **A), inv, [],
+                                 ["NoReleaseInside"])]),
+            mc_band_b=[("a2inside", dict(BASE, retry_set=[0], allow_timer=True, early_response=True,
+                                         timer_apps=[0]), ["MutualExclusion"])],
+            live=[("a1", dict(one, allow_lose=True), ["Resolves"])],
+            sim=[("n2a2", dict(BASE, n=2, max_req=2, retry_set=[0, 1, 2], **allf, **A), 150 if q else 3000)],
+            rnd=[("n2a2", dict(BASE, n=2, max_req=3, retry_set=[0, 1, 2, 3], dup_budget=1, send_fail_budget=1,
+                                **allf, **A), 150 if q else 5000),
+                 ("count", dict(BASE, n=2, max_req=3, retry_set=[0, 1, 2, 3], allow_timer=True, allow_lose=True,
+                                tx_prompt=True, **A), 100 if q else 3000),
+                 ("n1a3", dict(BASE, apps=3, max_req=2, retry_set=[0, 1], **allf, **A), 60 if q else 3000)],
+            rnd_band_b=[("n2a2", dict(BASE, n=2, max_req=3, retry_set=[0, 1, 2], dup_budget=1, **allf),
+                         100 if q else 3000)],
+        )
     raise lib.ToolError(f"no scenarios for {pid}")
 
 
-ASSUME = [
-    "Interleavings are sequentially consistent (token-passing scheduler); weakening a memory ordering without changing the operation is invisible.",
-    "Exhaustive results hold for the constants listed under model_checking_runs; beyond them exploration is simulation / seeded.",
-    "The network answers a request frame only after the transmit side marked it sent (C01/C02 assumption, property text).",
-]
+ASSUME = {
+    "all": [
+        "Interleavings are sequentially consistent (token-passing scheduler); weakening a memory ordering without changing the operation is invisible.",
+        "Exhaustive results hold for the constants listed under model_checking_runs; beyond them exploration is simulation / seeded.",
+    ],
+    "C01": ["The network answers a request frame only after the transmit side marked it sent; no deadline fires; fewer than 256 datagram indices are allocated while a request is outstanding (all three from the property text)."],
+    "C02": ["No deadline / abandonment (that is C06); the network answers only after the frame was marked sent."],
+    "C03": ["Abandonment exactly while the transmit/receive side is inside the buffer is cut (C06 window, band A constraint NoReleaseInside)."],
+    "C06": ["Band A cuts the listed known finding (request given up while TX/RX is inside its buffer); band B includes it and must reproduce only that finding.",
+            "The transmission-count clause is checked under the property's own assumption (TxPrompt: no deadline passes while the frame waits for the transmit task)."],
+}
 
 
 def run(pid, tier):
@@ -384,14 +469,42 @@ def run(pid, tier):
     eng = Engine(pid, tier)
     eng.binary = lib.build_harness()
     sc = scenarios(pid, tier)
+    to = 300 if tier == "quick" else 1500
     for name, s, invs, props, cons in sc["mc"]:
-        eng.mc(name, s, invariants=invs, properties=props, constraints=cons,
-               timeout=300 if tier == "quick" else 1500)
+        eng.mc(name, s, invariants=invs, properties=props, constraints=cons, timeout=to)
+    for name, s, props in sc.get("live", []):
+        eng.liveness(name, s, props, timeout=to)
+    for name, s, invs in sc.get("mc_band_b", []):
+        eng.band = "B"
+        eng.mc("bandB-" + name, s, invariants=invs, timeout=to)
+        eng.band = "A"
     for name, s, num in sc["sim"]:
         eng.simulate(name, s, num)
     for name, s, runs in sc["rnd"]:
         eng.random(name, s, runs)
-    return eng.finish(t0, ASSUME, "one case = one complete execution of the real PDU loop under a controlled "
+    for name, s, runs in sc.get("rnd_band_b", []):
+        eng.band = "B"
+        eng.random("bandB-" + name, s, runs)
+        eng.band = "A"
+    return eng.finish(t0, ASSUME["all"] + ASSUME[pid],
+                      "one case = one complete execution of the real PDU loop under a controlled "
                       "schedule (TLC behaviour or seeded); distinct_nontrivial = number of distinct "
                       "(process, point, choice) sequences in which some process was pre-empted in the middle of an "
                       "operation")
+
+
+def replay(pid, tier, path):
+    """Re-execute a recorded violation schedule against the current tree and judge it again."""
+    t0 = time.time()
+    eng = Engine(pid, tier)
+    eng.binary = lib.build_harness()
+    rp = json.load(open(path))
+    if not rp.get("steps"):
+        raise lib.ToolError("replay file has no schedule")
+    sched = os.path.join(eng.wd, "replay.ndjson")
+    with open(sched, "w") as fh:
+        fh.write(json.dumps({"cfg": rp["config"], "steps": rp["steps"], "seed": rp.get("run_seed") or 1,
+                             "id": "replay"}) + "\n")
+    sc = dict(rp["config"])
+    eng.replay_and_validate(sched, sc, tag="replay")
+    return eng.finish(t0, ASSUME["all"] + ASSUME[pid], "replay of one recorded schedule")
